@@ -46,6 +46,10 @@ def specs(tier):
             near['A'] = {1: [('a', pw), ('b', 1 - pw)]}
             near['C'] = {1: [('L', pw), ('U', 1 - pw)]}
             cands.append((near, [('A1', b), ('D1', 1 - b)]))
+    dom = dict(t0)
+    dom['A'] = {6: [('monkey', .9), ('tigers', .1)]}
+    dom['C'] = {6: [('LLLLLL', .55), ('ULLLLL', .45)]}
+    cands.append((dom, [('A6', .7), ('D1', .3)]))
     # a letter whose upper case is two characters, with capitals after it
     sharp = dict(t0)
     sharp['A'] = {6: [('stra\u00dfe', .6), ('strase', .4)], 2: [('\u01f0a', 1.0)]}
